@@ -102,7 +102,8 @@ FN = {
     'besseli':  ('hyp', lambda r: [_rarg(r, 6, -1, 2, 0), _rarg(r, 12, -3, 2, 0)], 800, ('mp',), 'besseli'),
     'airyai':   ('airy', lambda r: [_rarg(r, 12, -3, 2, 0)], 700, ('mp', 'clone'), 'airyai'),
     'airybi':   ('airy', lambda r: [_rarg(r, 12, -3, 2, 0)], 700, ('mp', 'clone'), 'airybi'),
-    'siegelz':  ('rs', lambda r: [_rarg(r, 12, 9, 11, 0)], 110, ('mp',), 'siegelz'),
+    # Riemann-Siegel (and its coefficient cache) is used for |t| > 500*prec only
+    'siegelz':  ('rs', lambda r: [I_(r.choice([40000, 60000, 100000]))], 70, ('mp',), 'siegelz'),
     'fibonacci': ('int', lambda r: [I_(r.choice([5, 10, 30, 77, 150, 300]))], 1200, ('mp',), 'fibonacci'),
     'eulernum': ('int', lambda r: [I_(r.choice([2, 4, 8, 10, 20, 36]))], 1200, ('mp',), 'eulernum'),
     'primepi':  ('int', lambda r: [I_(r.choice([10, 100, 1000, 5000]))], 400, ('mp',), 'primepi'),
@@ -374,7 +375,10 @@ def gen_fn_step(r, fname=None, p=None, ctx=None):
     if c not in ctxs:
         c = 'mp'
     pc = cap if c == 'mp' else min(cap, 400)
-    return {'k': 'fn', 'ctx': c, 'f': fname, 'a': gen(r), 'p': p or pick_prec(r, pc)}
+    a = gen(r)
+    if fname == 'bernoulli' and c == 'fp' and a[0][1] > 100:
+        a = [I_(r.choice([2, 4, 10, 20, 38, 64, 100]))]       # B_n overflows a double from n ~ 260 on (not a cache matter)
+    return {'k': 'fn', 'ctx': c, 'f': fname, 'a': a, 'p': p or pick_prec(r, pc)}
 
 
 def gen_step(r):
@@ -394,8 +398,10 @@ def gen_step(r):
         else:
             a = r.randint(-4, 4)
             ab = [[a, 2], [a + r.randint(1, 6), 2]]
-        return {'k': 'quad', 'g': g, 'ab': ab, 'method': r.choice([None, 'tanh-sinh', 'gauss-legendre']) if g != 'gauss' else None,
-                'p': pick_prec(r, 260), 'ctx': 'fp' if r.random() < 0.08 else 'mp'}
+        c = 'fp' if r.random() < 0.08 else 'mp'
+        # (fp.quad(method='gauss-legendre') does not terminate on the unchanged tree -- a C24 matter, kept out of here)
+        meth = r.choice([None, 'tanh-sinh', 'gauss-legendre']) if (g != 'gauss' and c == 'mp') else None
+        return {'k': 'quad', 'g': g, 'ab': ab, 'method': meth, 'p': pick_prec(r, 260), 'ctx': c}
     if x < 0.86:
         return {'k': 'memo', 'g': r.choice(list(MEMO_FUNCS)), 'x': r.choice(list(MEMO_KEYS)), 'p': pick_prec(r, 400)}
     return {'k': 'ode', 'name': r.choice(list(ODES)), 'p0': r.choice([40, 53, 80]), 'x': [r.randint(0, 24), 8], 'p': pick_prec(r, 160)}
@@ -414,7 +420,7 @@ def gen_history(r, probes):
             s.pop('id', None); s.pop('fam', None)
             if q['k'] == 'fn':
                 s = gen_fn_step(r, fname=q['f'], ctx=q.get('ctx'))
-                if r.random() < 0.5:
+                if r.random() < 0.5 or q['f'] == 'bernoulli':
                     s['a'] = q['a']
             else:
                 cap = {'const': 3200 if q.get('c') in CRCONST else 500, 'quad': 260, 'memo': 400, 'ode': 160}[q['k']]
@@ -466,7 +472,7 @@ def build_probes(r):
         for p in (53, 200):
             add('airy', gen_fn_step(r, f, p, 'mp'))
     add('airy', gen_fn_step(r, 'airyai', 100, 'clone'))
-    for p in (53, 90):
+    for p in (30, 53, 64):
         add('rs', gen_fn_step(r, 'siegelz', p, 'mp'))
     for f in ('fibonacci', 'eulernum', 'primepi'):
         add('int', gen_fn_step(r, f, r.choice([53, 400]), 'mp'), exact=True)
@@ -572,7 +578,7 @@ def make_reference(probe, triple):
 
 
 def cmp_reference(probe, v, ref):
-    """value against the consensus reference: 2^TOL_BITS units (1 unit for the correctly rounded constants),
+    """value against the consensus reference: 2^TOL_BITS units (1 ulp for the correctly rounded constants),
     guard band 2^-10 units -> undecided"""
     if H.is_exc(v):
         return 'violated', float('inf')
@@ -580,7 +586,8 @@ def cmp_reference(probe, v, ref):
     fv = _as_f(v)
     tol = float(1 << (TOL_BITS + (4 if probe['k'] == 'quad' else 0)))
     if probe['k'] == 'const' and probe.get('ctx') == 'mp' and probe['c'] in CRCONST:
-        tol = 1.0 if probe.get('m', 'n') != 'n' else 0.5
+        # correctly rounded: <= 1/2 ulp (nearest) or < 1 ulp (directed); one ulp is at most 2 units of 2^-p relative
+        tol = 2.0 if probe.get('m', 'n') != 'n' else 1.0
     if probe['k'] == 'ode' or (probe['k'] == 'fn' and probe['f'] == 'zetazero'):
         tol *= 64          # odefun / zetazero accuracy belongs to C34 / C41; only gross errors are asserted here
     if isinstance(fv, list) and fv and fv[0] == 'i':
@@ -916,7 +923,7 @@ LINE_ANCHORS = {
     '_misc_const_cache': ([r'mpmath.functions.bessel:_airyai_C1@return \+v'],
                           [r'mpmath.functions.bessel:_airyai_C1@cache\[name\] = \(prec, f\(ctx\)\)']),
     '_rs_cache': ([r'mpmath.functions.rszeta:coef@return _cache\[2\], _cache\[3\]'],
-                  [r'mpmath.functions.rszeta:coef@ctx._rs_cache\[:\] = data']),
+                  [r'mpmath.functions.rszeta:coef@ctx._rs_cache\[\x3a\] = data']),
     'fp._bernoulli_cache': ([r'mpmath.ctx_fp:FPContext.bernoulli@return cache\[n\]$'],
                             [r'mpmath.ctx_fp:FPContext.bernoulli@cache\[n\] = to_float']),
     'matrix._LU': ([r'mpmath.matrices.linalg:LinearAlgebraMethods.LU_decomp@return A\._LU'],
@@ -924,7 +931,7 @@ LINE_ANCHORS = {
     'quad.standard_cache': ([r'mpmath.calculus.quadrature:QuadratureRule.get_nodes@nodes = self.standard_cache\[degree, prec\]'],
                             [r'mpmath.calculus.quadrature:QuadratureRule.get_nodes@self.standard_cache\[degree, prec\] = nodes']),
     'ifib._cache': ([r'mpmath.libmp.libintmath:ifib@return _cache\[n\]'], [r'mpmath.libmp.libintmath:ifib@_cache\[m\] = b']),
-    'eulernum._cache': ([r'mpmath.libmp.libintmath:eulernum@f = _cache.get\(m\)'], [r'mpmath.libmp.libintmath:eulernum@_cache\[n\] = ']),
+    'eulernum._cache': ([r'mpmath.libmp.libintmath:eulernum@^\s+return f$'], [r'mpmath.libmp.libintmath:eulernum@_cache\[n\] = ']),
     'primes sieve': ([r'mpmath.libmp.libintmath:list_primes'], []),
 }
 TAP_CACHES = ['constant_memo', 'log_int_cache', 'bernoulli_cache', 'quad.transformed_cache', 'memoize', 'odefun segments']
@@ -1355,7 +1362,7 @@ def run_shard(shard, rec):
             continue
         h = sum(counts.get(a, 0) for a in hits)
         f = sum(counts.get(a, 0) for a in fills)
-        if cache in ('cos_sin_cache', 'gamma_stirling_cache', 'eulernum._cache', 'hyp_summators'):
+        if cache in ('cos_sin_cache', 'gamma_stirling_cache', 'hyp_summators'):
             h = max(0, h - f)            # the anchored line is every read, including the one right after a fill
         rec.event('cache %s: hit' % cache, h)
         rec.event('cache %s: fill' % cache, f)
